@@ -109,9 +109,11 @@ where
 
                     return Poll::Ready(());
                 }
-                // If no messages are available and there's no work to do, block this future
+                // If no messages are available and there's no work to do, block this future.
+                // A flush may still be outstanding from before the last stream finished.
                 Poll::Pending if stream.is_empty() && buffered_item.is_none() => {
-                    return Poll::Pending
+                    ready!(sink.as_mut().poll_flush(cx)).unwrap();
+                    return Poll::Pending;
                 }
                 // Otherwise, move on with running the stream
                 Poll::Pending => (),
